@@ -98,6 +98,15 @@ func (d *Decoder) readTag() (byte, error) {
 	return readTag(d.reader)
 }
 
+// tagReadError reports a failed read where a value was expected. io.EOF is never passed on as such, because
+// ReadData uses it to report the end mark of a list or map.
+func tagReadError(err error) error {
+	if err == io.EOF {
+		err = io.ErrUnexpectedEOF
+	}
+	return newCodecError("readTag", "no value to read", err)
+}
+
 func (d *Decoder) readBytes(size int) ([]byte, error) {
 	return readBytes(d.reader, size)
 }
@@ -109,7 +118,13 @@ func (d *Decoder) Decode(bts []byte) (interface{}, error) {
 }
 
 //ReadObject read new object from reader
-func (d *Decoder) ReadObject() (interface{}, error) {
+func (d *Decoder) ReadObject() (obj interface{}, err error) {
+	// data that does not match the registered Go types makes reflect panic: report it as an error
+	defer func() {
+		if r := recover(); r != nil {
+			obj, err = nil, newCodecError("ReadObject", "malformed or mismatching data: %v", r)
+		}
+	}()
 	return EnsureInterface(d.ReadData())
 }
 
@@ -150,8 +165,7 @@ func (d *Decoder) readDate(flag int32) (time.Time, error) {
 func (d *Decoder) readStruct() (interface{}, error) {
 	tag, err := d.readTag()
 	if err != nil {
-		hlog.Debugf("reading tag err:%v", err)
-		return nil, nil //ignore
+		return nil, tagReadError(err)
 	}
 
 	switch {
@@ -178,8 +192,7 @@ func (d *Decoder) readStruct() (interface{}, error) {
 func (d *Decoder) ReadData() (interface{}, error) {
 	tag, err := d.readTag()
 	if err != nil {
-		hlog.Debugf("reading tag err:%v", err)
-		return nil, nil //ignore
+		return nil, tagReadError(err)
 	}
 
 	switch {
